@@ -420,10 +420,20 @@ type TextCase struct {
 }
 
 var idlTokens = []string{"package", "interface", "end", "struct", "enum", "fn", "sig", "prop", "->", "(", ")", ":", ",", "<", ">", "//uid:", "//",
-	"Vec<", "Map<", "Tuple<", "int32", "str", "any", "obj", "bool", "unknown", "float64", "uint8", "\n", " ", "\t", "=", "1", "-5", "a", "Name", "x_1", "é", "\x00", "4294967296", "uid:99999999999"}
+	"Vec<", "Map<", "Tuple<", "int32", "str", "any", "obj", "bool", "unknown", "float64", "uint8", "\n", " ", "\t", "=", "1", "-5", "a", "Name", "x_1", "é", "\x00", "4294967296", "uid:99999999999", ".", "..", "-", "_"}
 
 func genText(t *rapid.T) TextCase {
-	switch rapid.IntRange(0, 2).Draw(t, "tkind") {
+	switch rapid.IntRange(0, 3).Draw(t, "tkind") {
+	case 3:
+		// a well-formed body under a package clause made of name pieces and
+		// separators in any order (names ending in a dot, doubled dots, ...)
+		n := rapid.IntRange(0, 5).Draw(t, "pieces")
+		name := ""
+		for i := 0; i < n; i++ {
+			name += rapid.SampledFrom([]string{"a", "qi", "v5", "B_1", ".", ".", "..", "-", "_", " ", "\t", "9", "é"}).Draw(t, "piece")
+		}
+		body := rapid.SampledFrom([]string{"", "\n", "\ninterface I\n\tfn f()\nend\n", "\nstruct S\n\ta: int32\nend\n"}).Draw(t, "body")
+		return TextCase{Kind: "package-clause", Text: "package " + name + body}
 	case 0:
 		return TextCase{Kind: "random-tokens", Text: strings.Join(rapid.SliceOfN(rapid.SampledFrom(idlTokens), 0, 40).Draw(t, "tokens"), "")}
 	case 1:
